@@ -404,6 +404,12 @@ def _frombuffer3(buf, dtype=float64, count=-1, offset=0):
                 store = st
                 break
         if store is None:
+            for (a, b, dn, st) in regs:
+                # two different views of one block that share bytes would corrupt each other (the stand-in has no byte-level
+                # memory): report it instead of silently giving them separate storage
+                if a < buf.stop and buf.start < b and nbytes > 0 and b > a:
+                    raise MemoryError(f"shim: overlapping shared-memory views [{a},{b}) {dn} and [{buf.start},{buf.stop}) {dtype.__name__}")
+        if store is None:
             store = Sparse()
             regs.append((buf.start, buf.stop, dtype.__name__, store))
         return SArr((nbytes // item,), dtype, store)
